@@ -6,6 +6,7 @@ import PgVerif.Proofs.LRNotEarly
 import PgVerif.Proofs.LRViable
 import PgVerif.Proofs.NDSound
 import PgVerif.Model.Decode
+import PgVerif.Proofs.GLRSound
 /-!
 # C10 — rejections are SyntaxErrors at the first offending token
 
@@ -154,6 +155,16 @@ theorem C10_every_path_reads_viable_prefixes (I : Nat → List LRV.VItem) (hw : 
 theorem C10_linecol_inverse (text : List Nat) (pos : Nat) (h : pos ≤ text.length) :
     lineColToPos text (posToLineCol text pos).1 (posToLineCol text pos).2 = pos :=
   lineColToPos_posToLineCol text pos h
+
+/-- **No other failure inside the GLR driver**: over a well-formed table the GLR driver model never
+meets a reduction by an unknown production or a missing goto — the two table lookups of
+`glr.py::_reduce`/`_do_reductions` that would raise something other than `SyntaxError` — for every
+input, recognizer behaviour with idempotent layout skipping, lexical mode and fuel. Its only
+answers are a forest, a syntax error, "order sensitive" (left to the oracles) and "out of fuel". -/
+theorem C10_glr_model_never_fails_internally (g : Grammar) (T : Table) (inp : Input) (hw : T.wf g = true)
+    (hidem : ∀ p, inp.skip (inp.skip p) = inp.skip p) (consume lexDis : Bool) (fuel : Nat) :
+    GLR.parseGLR g T inp consume lexDis fuel ≠ .crash :=
+  GLR.parseGLR_nocrash hw hidem consume lexDis fuel
 
 /-- Non-vacuity / sanity: "ab\ncd", position 4 is line 2 column 1. -/
 example : posToLineCol [97, 98, 10, 99, 100] 4 = (2, 1) := by decide
